@@ -28,6 +28,9 @@ pub struct Aggregator {
     /// Latest metrics for all sessions.
     session_metrics: HashMap<SessionId, Metrics>,
 
+    /// Sent and received bytes of running sessions which are already part of the totals.
+    counted_bytes: HashMap<SessionId, (u32, u32)>,
+
     /// Set of running sessions which have entered live mode.
     live_mode: HashSet<SessionId>,
 }
@@ -93,8 +96,7 @@ impl Aggregator {
             }
             TopicLogSyncEvent::SyncFinished { metrics } => {
                 self.session_metrics.insert(session_id, metrics.clone());
-                self.total_bytes_sent += metrics.sent_bytes();
-                self.total_bytes_received += metrics.received_bytes();
+                self.count_bytes(session_id, &metrics);
                 Some(SyncEvent::SyncEnded {
                     remote,
                     session_id,
@@ -108,9 +110,8 @@ impl Aggregator {
                 })
             }
             TopicLogSyncEvent::SessionFinished { metrics } => {
+                self.session_metrics.insert(session_id, metrics);
                 self.handle_session_end(session_id);
-                self.total_bytes_sent += metrics.sent_bytes();
-                self.total_bytes_received += metrics.received_bytes();
                 None
             }
             TopicLogSyncEvent::Failed { error } => {
@@ -137,7 +138,27 @@ impl Aggregator {
     fn handle_session_end(&mut self, session_id: SessionId) -> Metrics {
         self.running_sessions = self.running_sessions.saturating_sub(1);
         self.live_mode.remove(&session_id);
-        self.session_metrics.remove(&session_id).unwrap_or_default()
+        let metrics = self.session_metrics.remove(&session_id).unwrap_or_default();
+
+        // Make sure that all bytes of this session are part of the totals, no matter in which
+        // phase it ended or failed.
+        self.count_bytes(session_id, &metrics);
+        self.counted_bytes.remove(&session_id);
+
+        metrics
+    }
+
+    /// Add the bytes of a session to the topic totals which have not been counted yet.
+    ///
+    /// Metrics of a session are cumulative, we remember what was already added to the totals to
+    /// not count any bytes twice.
+    fn count_bytes(&mut self, session_id: SessionId, metrics: &Metrics) {
+        let (sent, received) = self
+            .counted_bytes
+            .insert(session_id, (metrics.sent_bytes(), metrics.received_bytes()))
+            .unwrap_or_default();
+        self.total_bytes_sent += metrics.sent_bytes().saturating_sub(sent);
+        self.total_bytes_received += metrics.received_bytes().saturating_sub(received);
     }
 
     /// Total running sessions for a topic.
